@@ -255,3 +255,128 @@ Definition prop_verdict (c : prop_case) : verdict :=
                            | EPassive => obs_passive tol9 o (pc_us c) end) (pc_kinds c)
       then Agree else Differ
   end.
+
+(* ---- C07 / C16: edit histories ---- *)
+From Lekkersim Require Import Wiring.
+
+Record ostate := {
+  o_ok : bool;
+  o_structs : list nat; o_conns : list (spin * spin); o_clist : list spin; o_free : list spin;
+  o_map : list (nat * spin);
+  o_store : list (nat * (list spin * list (spin * spin) * list nat));
+  o_S : option lmx                      (* at a solve: coefficients between the exposed names,
+                                           names in increasing order *)
+}.
+
+Record wir_case := {
+  wc_mats : list (nat * lmx);           (* id -> matrix by original pin index *)
+  wc_ops : list wop;
+  wc_obs : list ostate
+}.
+
+Fixpoint count {A} (eqb : A -> A -> bool) (x : A) (l : list A) : nat :=
+  match l with [] => O | y :: r => (if eqb y x then 1 else 0) + count eqb x r end.
+Definition mseq {A} (eqb : A -> A -> bool) (l l' : list A) : bool :=
+  Nat.eqb (length l) (length l') &&
+  forallb (fun x => Nat.eqb (count eqb x l) (count eqb x l')) l.
+
+Definition conn_eqb (c d : spin * spin) : bool :=
+  (spin_eqb (fst c) (fst d) && spin_eqb (snd c) (snd d)) ||
+  (spin_eqb (fst c) (snd d) && spin_eqb (snd c) (fst d)).
+Definition dconn_eqb (c d : spin * spin) : bool :=
+  spin_eqb (fst c) (fst d) && spin_eqb (snd c) (snd d).
+Definition map_eqb (c d : nat * spin) : bool := Nat.eqb (fst c) (fst d) && spin_eqb (snd c) (snd d).
+
+Definition store_close (s : wstate) (o : list (nat * (list spin * list (spin * spin) * list nat))) : bool :=
+  forallb (fun e => let t := getst s (fst e) in
+     match snd e with (pins, conn, to) =>
+       mseq spin_eqb (s_pins t) pins && mseq dconn_eqb (s_conn t) conn && mseq Nat.eqb (s_to t) to end) o.
+
+(* only what a user can observe is compared: the structures held, the connections, the pins
+   reported as free, the exposed pins (and, at a solve, the matrix).  The private tables
+   (connections_list, per-structure conn_dict / connected_to / pin_list) are recorded in the case
+   for diagnosis but not compared: a refactoring may keep them differently. *)
+Definition state_close (s : wstate) (o : ostate) : bool :=
+  mseq Nat.eqb (w_structs s) (o_structs o) && mseq conn_eqb (w_conns s) (o_conns o) &&
+  mseq spin_eqb (w_free s) (o_free o) && mseq map_eqb (w_map s) (o_map o).
+
+(* the circuit denoted by a state: present structures with their current pins *)
+Definition lst_of_struct (M : lmx) (pins : list spin) : lst BQCf :=
+  let n := length pins in
+  {| l_pins := pins;
+     l_S := tab n n (fun i j => mxl M (snd (nth i pins dpin)) (snd (nth j pins dpin))) |}.
+
+Fixpoint insert_by_name (e : nat * spin) (l : list (nat * spin)) : list (nat * spin) :=
+  match l with [] => [e] | f :: r => if fst e <=? fst f then e :: l else f :: insert_by_name e r end.
+Definition sort_map (m : list (nat * spin)) : list (nat * spin) := fold_right insert_by_name [] m.
+
+Definition abs_net (mats : list (nat * lmx)) (s : wstate) : netlist BQCf :=
+  {| comps := map (fun id => lst_of_struct
+                     (match dget Nat.eqb id mats with Some M => M | None => [] end)
+                     (s_pins (getst s id))) (w_structs s);
+     conns := w_conns s;
+     expo := map snd (sort_map (w_map s)) |}.
+
+Definition solve_close (mats : list (nat * lmx)) (s : wstate) (o : ostate) : verdict :=
+  match o_S o with
+  | None => if o_ok o then Agree else
+            (* the implementation refused to solve: the model must refuse too *)
+            match solve (abs_net mats s) (seq_sched (length (w_structs s))) with
+            | Ok _ => ImplError | Err _ => BothReject end
+  | Some m =>
+      let net := abs_net mats s in
+      match solve net (seq_sched (length (w_structs s))) with
+      | Ok T => if forallb (fun p => mem p (l_pins T)) (expo net) then
+                  if expo_close tol9 T (expo net) m then Agree else Differ
+                else Differ
+      | Err _ => ModelUndefined
+      end
+  end.
+
+Fixpoint wir_run (mats : list (nat * lmx)) (s : wstate) (ops : list wop) (obs : list ostate)
+  : verdict :=
+  match ops, obs with
+  | [], [] => Agree
+  | o :: ops', ob :: obs' =>
+      let (s', e) := step s o in
+      let okm := match e with None => true | Some _ => false end in
+      match o with
+      | SolveOp =>
+          if state_close s' ob then
+            match solve_close mats s' ob with
+            | Agree | BothReject => wir_run mats s' ops' obs'
+            | v => v end
+          else Differ
+      | _ =>
+          if Bool.eqb okm (o_ok ob) && state_close s' ob then wir_run mats s' ops' obs' else Differ
+      end
+  | _, _ => Differ
+  end.
+
+Definition wir_verdict (c : wir_case) : verdict := wir_run (wc_mats c) w_empty (wc_ops c) (wc_obs c).
+
+(* ---- C16: name tables ---- *)
+From Coq Require Import String.
+From Lekkersim Require Import Names.
+
+Record name_case := {
+  nm_pins : list pin; nm_ren : list (pin * pin); nm_queries : list string;
+  nm_ok : bool;                               (* construction (+ renaming) accepted *)
+  nm_lookups : list (option pin)              (* Model.pin / Structure.pin lookups by name *)
+}.
+
+Definition opin_eqb (a b : option pin) : bool :=
+  match a, b with None, None => true | Some p, Some q => pin_eqb p q | _, _ => false end.
+
+Definition name_verdict (c : name_case) : verdict :=
+  match update_pins (nm_pins c) with
+  | Err _ => if nm_ok c then Differ else BothReject
+  | Ok _ =>
+      match update_pins (rename_pins (nm_ren c) (nm_pins c)) with
+      | Err _ => if nm_ok c then Differ else BothReject
+      | Ok t => if nm_ok c then
+                  if all2 opin_eqb (map (fun q => lookup q t) (nm_queries c)) (nm_lookups c)
+                  then Agree else Differ
+                else ImplError
+      end
+  end.
